@@ -111,7 +111,7 @@ class Monitor:
             ra, rk = s["ref_args"][label]
             self.chk("C02", veq([list(args), dict(kwargs)], [list(ra), dict(rk)]),
                      "node %s received arguments that are not its dependencies' values" % label,
-                     {"node": label, "got": repr((args, kwargs)), "want": repr((ra, rk))})
+                     {"node": label, "got": (args, kwargs), "want": (ra, rk)})
         # C04: resource decides the mechanism; pooled in flight <= max_concurrency
         res = s["res"][label]
         want_kind = {"thread": "thread", "async-thread": "async", "main-thread": "inline"}[res]
@@ -362,6 +362,7 @@ def run_sched(cfg: Cfg, c: Ctx) -> Any:
 
     if cfg.distinct_cp:
         c.assume(z3.Distinct([cp[l] for l in labels]) if len(labels) > 1 else True)
+    c.heavy()
     spec: Dict[str, Any] = dict(labels=labels, alldeps=alldeps, res=res, seq=seq, mc=mc, fail=fail, desc=desc,
                                 exec_set=exec_set, cp=cp, ref_args={}, ref_val={}, active={},
                                 shape_key=(tuple(tuple(alldeps[l]) for l in labels), tuple(res[l] for l in labels), sel, flavour, route))
@@ -484,7 +485,7 @@ def run_sched(cfg: Cfg, c: Ctx) -> Any:
                 "set of executed nodes %s differs from the selected active set %s" % (mon.started, sorted(expected_run)))
         if not mon.failed:
             mon.chk("C01", veq(outcome[1], want), "returned value differs from the plain-Python evaluation",
-                    {"got": repr(outcome[1]), "want": repr(want)})
+                    {"got": outcome[1], "want": want})
         c.cover("w_returned")
     else:
         e = outcome[1]
